@@ -343,7 +343,7 @@ class ConfGen(MsgGen):
             return self.text_value(False)
         n = len(rows)
         req = [i for i, row in enumerate(rows) if is_seq(row) and len(row) == 4 and is_seq(row[2]) and row[2][0] >= 1]
-        last = max(req + [r.choice([0, 0, 1, n - 1, r.randrange(n)])])
+        last = min(n - 1, max(req + [r.choice([0, 0, 1, n - 1, r.randrange(n)])]))
         parts = []
         for i in range(last + 1):
             row = rows[i]
@@ -362,8 +362,10 @@ class ConfGen(MsgGen):
             return name + fs + 'x'
         rows = ref[1]
         n = len(rows)
+        if not all(is_seq(row) and len(row) == 4 and is_seq(row[2]) and len(row[2]) == 2 for row in rows):
+            return self.segment(name)
         req = [i for i, row in enumerate(rows) if is_seq(row) and len(row) == 4 and row[2][0] >= 1]
-        last = max(req + [r.choice([0, 1, 2, n - 1, r.randrange(n)])])
+        last = min(n - 1, max(req + [r.choice([0, 1, 2, n - 1, r.randrange(n)])]))
         fields = []
         for i in range(last + 1):
             row = rows[i]
